@@ -44,8 +44,8 @@ func init() {
 		ID: "C15",
 		Explanation: "Decides structural necessary conditions of token-set resolution: SIBLING(resolvesets): each work-list case of syntax.ResolveSets (any/first/last/precede/follow) instantiates the sets its definition needs, walks the rule in the right direction from the right position, stops after the first non-nullable symbol (polarity of the nullable test) and falls through to the enclosing nonterminal only when the walk was not stopped. MUSTPASS(set-contribution): in the any/first/last cases every rule reaches the rules[r].set test (set-defined nonterminals are empty rules carrying a set). " +
 			"SHARED: an in-place, self-dependent rewrite of TokenSet nodes inside a per-set traversal consults a visited set that outlives one traversal (nodes are shared between named sets). CYCLE: every recursion over *syntax.TokenSet (cyclic for mutually recursive named sets) is cut by a visited set keyed by the node. ALIAS/ESCAPE: scratch buffers of the set closure never alias an operand and buffer-backed slices are not retained. GUARD(complcycle): complement-on-cycle is reported exactly under op==complement ∧ onStack. DTX(setalg) as in C25. " +
-			"Not decided: that the fixpoint equals the definitional sets, Nullable(), reachability from the first input.",
-		Rules: []string{"SIBLING(resolvesets)", "MUSTPASS(set-contribution)", "CYCLE", "SHARED", "ALIAS", "ESCAPE", "GUARD(complcycle)", "DTX(setalg)", "GUARD(unionclone)"},
+			"Not decided: that the fixpoint equals the definitional sets, Nullable(), reachability from the first input. LOOPSHAPE(first-input): syntax.rules leaves the loop over m.Inputs right after it enqueued the first end-of-input input (sets are computed over what the first input reaches, not over every input).",
+		Rules: []string{"SIBLING(resolvesets)", "MUSTPASS(set-contribution)", "CYCLE", "SHARED", "ALIAS", "ESCAPE", "GUARD(complcycle)", "DTX(setalg)", "GUARD(unionclone)", "LOOPSHAPE(first-input)"},
 		Run: func(c *Ctx) {
 			ruleRESOLVESETS(c)
 			ruleSETCONTRIB(c)
@@ -57,6 +57,7 @@ func init() {
 			ruleCOMPLCYCLE(c)
 			ruleSETALG(c)
 			ruleSETEQ(c)
+			ruleFIRSTINPUT(c)
 		},
 	})
 }
@@ -237,12 +238,14 @@ func init() {
 		ID: "C22",
 		Explanation: "Decides structural necessary conditions of 'the grammar compiler never crashes and reports in-range diagnostics': EXIT: the process-exit/panic sites reachable (call graph from compiler.Compile, restricted to packages the compiler links) equal an audited table, each line with the invariant that keeps grammar text away from it; a new site fails as unaudited. STAGEGATE: each pipeline stage of compileParser runs only if the previous one returned no error. ASSERTTY: every unchecked type assertion on an option value asserts the type of that option's default. " +
 			"CYCLE: no unbounded recursion over cyclic token sets. ESCAPE: validation data is not kept in a recycled scratch buffer. CURSOR: the grammar lexer (parsers/tm) never reads l.source past its end and never advances the cursor unguarded. UNITS(bytes): no rune-counting value flows into SourceRange offsets/columns. GUARD(optimize-la), DTX(rune-fold): the obligations cited by audited exit sites. " +
-			"Not decided: index-out-of-range and nil dereference on malformed models in general, line/column consistency beyond the unit rule. GUARD(lookup-index): a slice is indexed with the result of a comma-ok map lookup only on the ok path (no panic after a 'not a valid category reference' diagnostic). CYCLE(memo): a hit of the in-progress marker of longestPhrase's memo never reaches the recursive call (an unbounded lookahead is a diagnostic, not a stack overflow). GUARD(valid-anchor): a diagnostic is anchored at an optional syntax node only under IsValid() (it always carries a location). OPTIONMAP and MUSTPASS(compile-order) as in C05.",
-		Rules: []string{"EXIT", "STAGEGATE", "ASSERTTY", "OPTIONMAP", "CYCLE", "ESCAPE", "CURSOR", "UNITS(bytes)", "GUARD(optimize-la)", "DTX(rune-fold)", "CYCLE(memo)", "GUARD(lookup-index)", "GUARD(valid-anchor)", "MUSTPASS(compile-order)"},
+			"Not decided: index-out-of-range and nil dereference on malformed models in general, line/column consistency beyond the unit rule. GUARD(lookup-index): a slice is indexed with the result of a comma-ok map lookup only on the ok path (no panic after a 'not a valid category reference' diagnostic). CYCLE(memo): a hit of the in-progress marker of longestPhrase's memo never reaches the recursive call (an unbounded lookahead is a diagnostic, not a stack overflow). GUARD(valid-anchor): a diagnostic is anchored at an optional syntax node only under IsValid() (it always carries a location). OPTIONMAP and MUSTPASS(compile-order) as in C05. CYCLE(memo) also requires that after a miss the key is entered in the memo before the recursive call. FIELDCOV(expr-origin): every syntax.Expr literal in syntax/ and compiler/ sets Origin (rules and diagnostics made from a synthesised expression dereference its source node). FIELDROLE(input): syntax.Input.NoEoi/Synthetic are consulted in their role only (addSyntheticInputs pre-populates its seen set with no-eoi inputs only; otherwise a plain %input suppresses the synthetic lookahead input and generateTables exits through log.Fatalf).",
+		Rules: []string{"EXIT", "STAGEGATE", "ASSERTTY", "OPTIONMAP", "CYCLE", "ESCAPE", "CURSOR", "UNITS(bytes)", "GUARD(optimize-la)", "DTX(rune-fold)", "CYCLE(memo)", "GUARD(lookup-index)", "GUARD(valid-anchor)", "MUSTPASS(compile-order)", "FIELDCOV(expr-origin)", "FIELDROLE(input)"},
 		Run: func(c *Ctx) {
 			ruleLOOKUPIDX(c, "syntax", "compiler", "grammar", "gen", "lalr", "lex")
 			ruleMEMOCYCLE(c, "compiler", "syntax", "lalr", "grammar")
 			ruleNILANCHOR(c, "compiler")
+			ruleEXPRORIGIN(c)
+			ruleFIELDROLE(c)
 			ruleEXIT(c)
 			ruleSTAGEGATE(c)
 			ruleASSERTTY(c)
@@ -262,10 +265,10 @@ func init() {
 		ID: "C23",
 		Explanation: "Decides structural necessary conditions of 'the language server stays consistent': UNITS(utf16): every outbound Position.Character is a sum of constants and results of the audited UTF-16 converter (two units above U+FFFF); the inbound conversion consumes two units for such runes and rejects positions between them. IDXGUARD: constant-index reads of client-supplied arrays are dominated by a length test. " +
 			"SEQ: package ls starts no goroutine; DidOpen/DidChange store the document before type-checking and publish the request's version; startLS serves the connection through protocol.Handlers(protocol.ServerHandler(…)). RANGE(single-line): the end of a diagnostic range is Offset + length of the error text up to its first newline. No-crash clause (a panic on the handler goroutine takes the server down): CURSOR: the grammar lexer the server runs on every keystroke never reads l.source past its end; SENTINEL(allTokensMarker): the verbose conflict explanations the server asks for (Params{CheckOnly, Verbose}) never index the goto tables with the all-tokens sentinel. " +
-			"Not decided: the jsonrpc2 transport, that definition results are the right identifiers.",
-		Rules:       []string{"UNITS(utf16)", "IDXGUARD", "SEQ", "RANGE(single-line)", "CURSOR", "SENTINEL(allTokensMarker)"},
+			"Not decided: the jsonrpc2 transport, that definition results are the right identifiers. CYCLE(memo): the compiler runs inside the server on every change; its memoised recursions enter the key before descending and stop on a hit (a recursive lookahead definition is a diagnostic, not a stack overflow that kills the server).",
+		Rules:       []string{"UNITS(utf16)", "IDXGUARD", "SEQ", "RANGE(single-line)", "CURSOR", "SENTINEL(allTokensMarker)", "CYCLE(memo)"},
 		Assumptions: []string{"go.lsp.dev/protocol.Handlers + ServerHandler reply only after the handler method returned (read in the vendored sources)"},
-		Run:         func(c *Ctx) { ruleLS(c); ruleCURSOR(c); ruleSENTINELIDX(c) },
+		Run:         func(c *Ctx) { ruleLS(c); ruleCURSOR(c); ruleSENTINELIDX(c); ruleMEMOCYCLE(c, "compiler", "syntax", "lalr", "grammar") },
 	})
 }
 
@@ -336,20 +339,21 @@ func init() {
 	register(&Property{
 		ID: "C19",
 		Explanation: "Decides structural necessary conditions of 'error recovery is safe' on the generated recoverFromError/skipBrokenCode/parse of tm and js (hand-written sibling): VARIANT: every back edge of the recovery search loop follows the removal of the current token from the finite recovery set and is guarded by an end-of-input return; the skip loop fetches a token per iteration; parse resets the error-suppression counter when it is parser state. " +
-			"CODEC(parser): packed-table reads made while simulating reductions (reduceAll, gotoState) are bounds-guarded. Not decided: monotonic offsets, transparency on valid input. TYPESTATE(recoveryMode): in js's hand-written parse loop stream.recoveryMode is true on every path to recoverFromError (constant propagation over the CFG). RESET(histogram): the default-reduction histogram of Optimize is zeroed over exactly the range that is read back.",
-		Rules: []string{"TYPESTATE(recoveryMode)", "RESET(histogram)", "VARIANT", "CODEC(parser)"},
+			"CODEC(parser): packed-table reads made while simulating reductions (reduceAll, gotoState) are bounds-guarded. Not decided: monotonic offsets, transparency on valid input. TYPESTATE(recoveryMode): in js's hand-written parse loop stream.recoveryMode is true on every path to recoverFromError (constant propagation over the CFG). RESET(histogram): the default-reduction histogram of Optimize is zeroed over exactly the range that is read back. GUARD(eoi-skip): the token-skipping loop of recovery (generated and js) advances the lookahead only behind p.next.symbol != eoiToken on every path (recovery terminates at the end of input).",
+		Rules: []string{"TYPESTATE(recoveryMode)", "RESET(histogram)", "VARIANT", "CODEC(parser)", "GUARD(eoi-skip)"},
 		Run: func(c *Ctx) {
 			ruleRECMODE(c)
 			ruleRESET(c, "lalr")
 			ruleRECOVERY(c)
 			ruleTABLEIDX(c)
+			ruleEOISKIP(c)
 		},
 	})
 	register(&Property{
 		ID: "C20",
 		Explanation: "Decides structural necessary conditions of 'parse events form a well-nested tree': VARIANT(flush-after-extend): in recoverFromError the error node is flushed only after its range was extended over pending invalid tokens (otherwise tokens inside the node are reported after it). VARIANT(trim-trailing-empty): every parse loop that trims trailing empty symbols does so in a loop (all of them), so a node never runs into following whitespace/comments that are still pending. " +
-			"STACKIDX: reported ranges are non-empty sub-ranges of the rule. Not decided: the tree builder, nesting under recovery in general. INITCOV: every field of Lexer/Parser/TokenStream that another method modifies is assigned on every path by Init (or by the first block of parse()), so no run state of an earlier input (pending tokens of a cancelled parse) reaches the next input's event stream; four audited exemptions. INITCOV: every field of Lexer/Parser/TokenStream that another method modifies is assigned on every path by Init (or by the first block of parse()), so no run state of an earlier input (pending tokens of a cancelled parse) reaches the next input's event stream; audited exemptions are listed in the rule. GUARD(root-adopts-all): builder.build() of each generated ast package either fails unless one node is left on the stack or adds the file node with an end offset beyond the input, so that every reported node (an empty node at the very end included) is in the tree. GUARD(sibling-boundary) as in C21. TMPL(switch-guard) as in C02 (whitespace trimming is generated for every grammar that needs it).",
-		Rules: []string{"INITCOV", "VARIANT", "STACKIDX", "GUARD(root-adopts-all)", "GUARD(sibling-boundary)", "TMPL(switch-guard)"},
+			"STACKIDX: reported ranges are non-empty sub-ranges of the rule. Not decided: the tree builder, nesting under recovery in general. INITCOV: every field of Lexer/Parser/TokenStream that another method modifies is assigned on every path by Init (or by the first block of parse()), so no run state of an earlier input (pending tokens of a cancelled parse) reaches the next input's event stream; four audited exemptions. INITCOV: every field of Lexer/Parser/TokenStream that another method modifies is assigned on every path by Init (or by the first block of parse()), so no run state of an earlier input (pending tokens of a cancelled parse) reaches the next input's event stream; audited exemptions are listed in the rule. GUARD(root-adopts-all): builder.build() of each generated ast package either fails unless one node is left on the stack or adds the file node with an end offset beyond the input, so that every reported node (an empty node at the very end included) is in the tree. GUARD(sibling-boundary) as in C21. TMPL(switch-guard) as in C02 (whitespace trimming is generated for every grammar that needs it). LOOPSHAPE(marker-transparent): the predicates that decide where a rule's reported range ends (HasTrailingNulls and siblings) look through state markers, so fixTrailingWS is generated for `X: a Nullable .marker` too (otherwise the node runs into the following whitespace and is reported before the comments inside it).",
+		Rules: []string{"INITCOV", "VARIANT", "STACKIDX", "GUARD(root-adopts-all)", "GUARD(sibling-boundary)", "TMPL(switch-guard)", "LOOPSHAPE(marker-transparent)"},
 		Run: func(c *Ctx) {
 			ruleINITCOV(c, "TokenStream", "Lexer", "Parser")
 			ruleSWITCHGUARD(c)
@@ -357,6 +361,7 @@ func init() {
 			ruleSIBLINGBOUNDARY(c)
 			ruleRECOVERY(c)
 			ruleSTACKIDX(c)
+			ruleMARKERLOOPS(c)
 		},
 	})
 }
@@ -461,20 +466,21 @@ func init() {
 	register(&Property{
 		ID: "C13",
 		Explanation: "Decides one structural necessary condition of 'desugaring preserves the language': DTX(expr-equal): Expand reuses an already extracted nonterminal for a sub-expression (lists, optionals, nested choices) when names match and (*Expr).Equal says the expressions are the same; the check evaluates Equal abstractly for every expression kind and requires that a difference in any component of the kind (symbol, arguments, every sub-expression including a list's separator, list flags, names, arrow flags, predicate, set index) makes it false and identical components make it true. " +
-			"LOOPSHAPE(marker-transparent): markers never hide symbols of a rule. Not decided: the expansion rules themselves (which productions a list/optional/choice turns into) — language equivalence of those is algorithmic and out of reach for this technique; two of the four independently seeded C13/C14 regressions are of that kind and are not detected (recorded in DESIGN.md). SIBLING(list-recursion): every rule Expand builds for a list places the recursive reference (and the separator) on the side the RightRecursive flag asks for; a placement that does not consult the flag is a violation.",
-		Rules: []string{"DTX(expr-equal)", "SIBLING(list-recursion)", "LOOPSHAPE(marker-transparent)", "BOUNDARY(terminals)"},
+			"LOOPSHAPE(marker-transparent): markers never hide symbols of a rule. Not decided: the expansion rules themselves (which productions a list/optional/choice turns into) — language equivalence of those is algorithmic and out of reach for this technique; two of the four independently seeded C13/C14 regressions are of that kind and are not detected (recorded in DESIGN.md). SIBLING(list-recursion): every rule Expand builds for a list places the recursive reference (and the separator) on the side the RightRecursive flag asks for; a placement that does not consult the flag is a violation. GUARD(drop-empty): where a Sub list is rebuilt, a child that became Empty is left out only under parent.Kind == Sequence (dropped from a Choice, an explicit %empty alternative disappears from the language).",
+		Rules: []string{"DTX(expr-equal)", "SIBLING(list-recursion)", "LOOPSHAPE(marker-transparent)", "BOUNDARY(terminals)", "GUARD(drop-empty)"},
 		Run: func(c *Ctx) {
 			ruleEXPREQUAL(c)
 			ruleLISTRECURSION(c)
 			ruleMARKERLOOPS(c)
 			ruleMARKERLOOPSAST(c)
+			ruleDROPEMPTY(c)
 		},
 	})
 	register(&Property{
 		ID: "C14",
 		Explanation: "Decides structural necessary conditions of 'template instantiation preserves meaning': DTX(predicate): the predicate evaluator of conditional alternatives computes or / and / not / equals (all truth assignments of two operands, bound value equal or not). ESCAPE: the per-nonterminal required-flag sets of PropagateLookaheads are not kept in a recycled buffer (a lost 'flag is never provided' diagnostic ends in a process exit). CYCLE/SHARED: instantiating and renumbering token-set expressions terminates on cyclic sets and touches shared nodes once. DTX(expr-equal) as in C13. " +
-			"Not decided: argument propagation and the instantiation work-list themselves. BOUNDARY(terminals): every comparison of a symbol with the terminal count cuts exactly at the first nonterminal (44 sites; `sub > 0` would skip the first declared nonterminal when lookahead flags are propagated). MUSTPASS(conditional-outermost): convertRules applies the [predicate] wrapper last, so a disabled alternative is the direct child of the Choice that Instantiate prunes. ESCAPE also follows slices into callees that keep them (set.Closure.Add) and treats buffers captured by closures as refilled. FIELDCOV(renumber) as in C16 (instantiation renumbers every holder of symbol numbers).",
-		Rules: []string{"DTX(predicate)", "ESCAPE", "CYCLE", "SHARED", "DTX(expr-equal)", "BOUNDARY(terminals)", "MUSTPASS(conditional-outermost)", "FIELDCOV(renumber)"},
+			"Not decided: argument propagation and the instantiation work-list themselves. BOUNDARY(terminals): every comparison of a symbol with the terminal count cuts exactly at the first nonterminal (44 sites; `sub > 0` would skip the first declared nonterminal when lookahead flags are propagated). MUSTPASS(conditional-outermost): convertRules applies the [predicate] wrapper last, so a disabled alternative is the direct child of the Choice that Instantiate prunes. ESCAPE also follows slices into callees that keep them (set.Closure.Add) and treats buffers captured by closures as refilled. FIELDCOV(renumber) as in C16 (instantiation renumbers every holder of symbol numbers). GUARD(drop-empty): as in C13, for instantiator.doExpr (a switched-off conditional alternative is pruned by its predicate, never by the shape of what it became). AGREE(takefrom-by-name): every value stored into syntax.Arg.TakeFrom is a resolveParam result, the argument's own Param, or selected by equality of parameter names - implicit propagation agrees with the explicit A<P> shorthand (inline parameters share names, not indices). RESET(scratch-set): a bit set that is reset inside a loop or closure is reset in every iteration scope in which it is both filled and read (PropagateLookaheads masks the pinned lookahead flags per reference, not per nonterminal).",
+		Rules: []string{"DTX(predicate)", "ESCAPE", "CYCLE", "SHARED", "DTX(expr-equal)", "BOUNDARY(terminals)", "MUSTPASS(conditional-outermost)", "FIELDCOV(renumber)", "GUARD(drop-empty)", "AGREE(takefrom-by-name)", "RESET(scratch-set)"},
 		Run: func(c *Ctx) {
 			rulePREDICATE(c)
 			ruleRENUMBER(c)
@@ -484,6 +490,9 @@ func init() {
 			ruleCYCLE(c)
 			ruleSHARED(c)
 			ruleEXPREQUAL(c)
+			ruleDROPEMPTY(c)
+			ruleTAKEFROM(c)
+			ruleSCRATCHSET(c, "syntax", "lalr", "lex", "compiler")
 		},
 	})
 }
@@ -510,15 +519,18 @@ func init() {
 func init() {
 	register(&Property{
 		ID: "C27",
-		Explanation: "Decides structural necessary conditions of 'line diffs are correct and minimal' on util/diff: GUARD(equal-empty): equal texts return the empty diff in the entry block. DTX(hunk-sizes): in hunk.add, leftSize grows exactly for lines that are not added ('+') and rightSize for lines that are not removed ('-'), so the @@ header describes the hunk. LOCKSTEP(chunk-merge): merging chunks adds del, ins and eq each (the script keeps covering both texts). SIBLING(trace-mirror): the len(a)==1 and len(b)==1 base cases of the edit-script recursion are mirror images (a<->b, del<->ins). INPLACE(write-behind-read): the in-place chunk merge of lcs never writes ahead of its read cursor. " +
-			"Not decided: minimality of the script (Myers' middle snake), that unequal texts render a non-empty diff, that the hunks apply - numerical/round-trip properties of runtime data.",
-		Rules: []string{"GUARD(equal-empty)", "DTX(hunk-sizes)", "LOCKSTEP(chunk-merge)", "SIBLING(trace-mirror)", "INPLACE(write-behind-read)"},
+		Explanation: "Decides structural necessary conditions of 'line diffs are correct and minimal' on util/diff: GUARD(equal-empty): equal texts return the empty diff in the entry block. DTX(hunk-sizes): in hunk.add, leftSize grows exactly for lines that are not added ('+') and rightSize for lines that are not removed ('-'), so the @@ header describes the hunk. LOCKSTEP(chunk-merge): merging chunks adds del, ins and eq each (the script keeps covering both texts). SIBLING(trace-mirror): the len(a)==1 and len(b)==1 base cases of the edit-script recursion are mirror images (a<->b, del<->ins). INPLACE(write-behind-read): the in-place chunk merge of lcs never writes ahead of its read cursor. LOCKSTEP(hunk-origin): hunk.leftLine is derived from the old-text cursor only and hunk.rightLine from the new-text cursor only, by the same expression (a cursor-free value only where nothing was inserted or deleted before). MAXSEL(furthest-reaching): in both searches of middle, x = v[k+1] is chosen only under v[k-1] < v[k+1] strictly, otherwise v[k-1]+1 - the kept point is the furthest reaching one, a necessary condition of minimality. ARITH(abbreviation): the marker of an abbreviated run reports len - (head + tail) lines, and a run is abbreviated only when longer than head + 1 + tail lines. " +
+			"Not decided: minimality of the script as a whole (Myers' middle snake), that unequal texts render a non-empty diff, that the hunks apply - numerical/round-trip properties of runtime data. Remark: a run of more than 14 inserted or deleted lines is abbreviated by design ('... N lines skipped ...'), so for such runs the clause 'hunks apply' cannot hold; the checks state conditions of the unabbreviated path and the consistency of the abbreviation.",
+		Rules: []string{"GUARD(equal-empty)", "DTX(hunk-sizes)", "LOCKSTEP(chunk-merge)", "SIBLING(trace-mirror)", "INPLACE(write-behind-read)", "LOCKSTEP(hunk-origin)", "MAXSEL(furthest-reaching)", "ARITH(abbreviation)"},
 		Run: func(c *Ctx) {
 			ruleDIFFEQUAL(c)
 			ruleHUNKSIZES(c)
 			ruleCHUNKMERGE(c)
 			ruleTRACEMIRROR(c)
 			ruleINPLACE(c, "util/diff")
+			ruleHUNKORIGIN(c)
+			ruleFURTHEST(c)
+			ruleABBREV(c)
 		},
 	})
 }
